@@ -1,7 +1,7 @@
 """C19 - adjacent groups consume contiguous blocks only."""
 from vlib import *
 import defs as D, linegen, cmdline_sig
-from cmdline_check import run_cmdline_property
+from cmdline_check import run_cmdline_property, run_tree_groups, merge_cov
 
 
 def families(tier):
@@ -30,9 +30,19 @@ def run(v):
     cov = run_cmdline_property(v, families(v.tier), None, replay_cfg="MC_GroupLine_replay.cfg", module="MC_GroupLine",
                                signature=sig, ledger_every=(6 if v.tier == "quick" else 1), trace_module="GroupLineTrace",
                                driver={"defs": big, "n": 15000 if v.tier == "quick" else 300000, "gen": gen})
+    q = v.tier == "quick"
+    def tsig(m):
+        d = m.get("def_full") or {}
+        for c in (d.get("tail", {}).get("cmds", []) if isinstance(d, dict) else []):
+            if c["names"][0] in m.get("argv_bytes", [])[:3]:
+                return sig(dict(m, def_full=c["level"]))
+        return sig(m)
+    cov = merge_cov(cov, run_tree_groups(v, SEED + 1980, 12 if q else 60, 4 if q else 5, 1500 if q else 12000, ("adj", "acmd"),
+                                         tsig, ledger_every=3 if q else 1), "tree_groups")
     cov["rule"] = ("group shapes {flag + 2..3 positionals, flag + two named arguments + optional switch} under one/opt/many among "
                    "0..2 other options and a trailing repeated positional; all lines up to maxlen: blocks at every position, "
-                   "split by foreign items, cut short, `--`/help inside and next to blocks; AdjContiguous/CutKills checked by TLC")
+                   "split by foreign items, cut short, `--`/help inside and next to blocks; AdjContiguous/CutKills checked by TLC; the same "
+                   "groups and adjacent subcommands inside an ordinary subcommand, where the scope does not start at the first item (TreeLine.tla)")
     cov["exhaustive"] = True
     return v.finish("model_checking", cov, ["adjacent subcommand chains are not in this family (see DESIGN.md)"])
 
